@@ -43,6 +43,11 @@ bool run(const Case &c, std::string &msg) {
         if (zero) { if (rc != -1) { snprintf(b, sizeof b, "crypto_scalarmult returned %d for a point whose shared secret is all-zero (must report failure)", rc); msg = b; return false; } return true; }
         if (rc != 0) { snprintf(b, sizeof b, "crypto_scalarmult returned %d although the RFC 7748 result is non-zero", rc); msg = b; return false; }
         if (q.get() != want) { msg = "crypto_scalarmult differs from RFC 7748 X25519: got " + hex(q.get()) + " want " + hex(want); return false; }
+        // the result does not depend on where it is written: over the point (the usual in-place idiom) or over the scalar
+        { XBuf qp(c.point, 2), n2(c.scalar, 1); int r2 = crypto_scalarmult(qp.p, n2.p, qp.p);
+          if (r2 != 0 || qp.get() != want) { msg = "crypto_scalarmult(q, n, q) (result written over the point) differs from RFC 7748: rc=" + std::to_string(r2) + " got " + hex(qp.get()) + " want " + hex(want); return false; } }
+        { XBuf qn(c.scalar, 1), p2(c.point, 2); int r3 = crypto_scalarmult(qn.p, qn.p, p2.p);
+          if (r3 != 0 || qn.get() != want) { msg = "crypto_scalarmult(q, q, p) (result written over the scalar) differs from RFC 7748: rc=" + std::to_string(r3) + " got " + hex(qn.get()) + " want " + hex(want); return false; } }
         if (c.kind == 7) {   // DH symmetry: the other side computes the same secret
             Bytes pkA(32), pkB(32), s2(32);
             crypto_scalarmult_base(D(pkA), c.scalar.data()); crypto_scalarmult_base(D(pkB), c.extra.data());
@@ -89,6 +94,12 @@ bool run(const Case &c, std::string &msg) {
                 crypto_kx_server_session_keys(s_rx.p, nullptr, sp.p, ss.p, cp.p) != 0 || crypto_kx_server_session_keys(nullptr, s_tx.p, sp.p, ss.p, cp.p) != 0) { msg = "crypto_kx_*_session_keys failed with a NULL rx or tx"; return false; }
             if (c_rx.get() != s_tx.get() || c_tx.get() != s_rx.get()) { msg = "kx single-key mode (NULL rx/tx): the two sides derived different keys"; return false; }
             if (c_rx.get() != first && c_rx.get() != second) { msg = "kx single-key mode: key is not part of BLAKE2b-512(shared || client_pk || server_pk)"; return false; }
+            // The client's tx key and the server's rx key are the same specified value (the second half of the hash) whether or not the
+            // other key is requested as well; the library returns exactly that in these two forms.  (In the other two forms - client rx
+            // alone, server tx alone - the library also returns the second half, which its pinned test asserts; the statement does not
+            // quantify over those forms, so nothing beyond the cross-equality above is required of them: see DESIGN.md 9.2.)
+            if (c_tx.get() != second) { msg = "crypto_kx_client_session_keys(NULL, tx, ...): tx differs from the tx key of the full call / the specification"; return false; }
+            if (s_rx.get() != second) { msg = "crypto_kx_server_session_keys(rx, NULL, ...): rx differs from the rx key of the full call / the specification"; return false; }
         }
         return true;
     }
